@@ -226,10 +226,47 @@ func (fe *analyticFieldEngine) applyCall(s *Stream, row map[string]any, c types.
 	if err != nil || args == nil {
 		args = []any{}
 	}
+	nullAbsentColumns(c.Args, row, args)
 	if hasStarArg(c.Args) {
 		args = expandStarArgs(c.Args, row, args)
 	}
 	return state.Apply(args)
+}
+
+// nullAbsentColumns replaces, in the evaluated arguments of an analytic call, every bare column
+// reference that the row does not carry by nil. parseFunctionArgs falls back to an argument's
+// source text when it cannot resolve it, so an absent column would otherwise reach the state
+// machine as the string "<column name>": lag/latest would replay the name as a value, acc_count
+// would count it, the change detectors would report a change. An absent column is NULL.
+// exprs are the argument expressions of the call, position-aligned with args.
+func nullAbsentColumns(exprs []string, row map[string]any, args []any) {
+	for i := 0; i < len(args) && i < len(exprs); i++ {
+		name := strings.TrimSpace(exprs[i])
+		if text, ok := args[i].(string); !ok || text != name || !isBareColumnRef(name) {
+			continue
+		}
+		if _, found := lookupRowField(row, name); !found {
+			args[i] = nil
+		}
+	}
+}
+
+// isBareColumnRef reports whether an argument expression is a plain (optionally qualified)
+// column name. The unquoted keywords true/false are literals (see AnalyticToBool), not columns.
+func isBareColumnRef(s string) bool {
+	if s == "" || strings.EqualFold(s, "true") || strings.EqualFold(s, "false") {
+		return false
+	}
+	for i := 0; i < len(s); i++ {
+		ch := s[i]
+		switch {
+		case ch == '_' || (ch >= 'a' && ch <= 'z') || (ch >= 'A' && ch <= 'Z'):
+		case i > 0 && (ch == '.' || (ch >= '0' && ch <= '9')):
+		default:
+			return false
+		}
+	}
+	return true
 }
 
 // evaluateMultiColumn 处理 changed_cols 等多列函数：按 prefix+列名 扇出变化列。
@@ -238,6 +275,7 @@ func (fe *analyticFieldEngine) evaluateMultiColumn(s *Stream, row map[string]any
 	if err != nil || values == nil {
 		values = []any{}
 	}
+	nullAbsentColumns(fe.af.Args, row, values)
 	// 位置参数：优先用已求值；"*" 致解析失败时用字面量还原 prefix/ignoreNull。
 	argVal := func(idx int) any {
 		if idx < len(values) {
